@@ -5,7 +5,7 @@
 set -u
 REV=""
 if [ "$1" = "-R" ]; then REV="-R"; shift; fi
-PATCH="$1"; shift; shift
+PATCH="$(realpath "$1")"; shift; shift
 if [ -n "$(git -C /repo status --porcelain --untracked-files=no)" ]; then echo "with_patch: /repo has uncommitted changes" >&2; exit 3; fi
 if ! git -C /repo apply $REV "$PATCH"; then echo "with_patch: patch does not apply" >&2; exit 3; fi
 trap 'git -C /repo checkout -- . ' EXIT
